@@ -1,0 +1,93 @@
+//go:build verif
+
+package fontscan
+
+import (
+	td "github.com/go-text/typesetting-utils/opentype"
+	"github.com/go-text/typesetting/font"
+	"github.com/go-text/typesetting/language"
+)
+
+// Read-only accessors used by the verification harness (property C14).
+
+// VerifFootprint is a projection of one database entry.
+type VerifFootprint struct {
+	Location Location
+	Family   string
+	Scripts  []language.Script
+	Aspect   font.Aspect
+	User     bool
+	Mono     bool
+	TTF      bool
+	Face     *font.Face // faceCache[Location], nil when absent
+	runes    RuneSet
+}
+
+// Contains reports whether the footprint coverage contains r.
+func (fp VerifFootprint) Contains(r rune) bool { return fp.runes.Contains(r) }
+
+// VerifDatabase returns the database in order.
+func (fm *FontMap) VerifDatabase() []VerifFootprint {
+	out := make([]VerifFootprint, len(fm.database))
+	for i := range fm.database {
+		fp := &fm.database[i]
+		out[i] = VerifFootprint{
+			Location: fp.Location, Family: fp.Family, Scripts: append([]language.Script(nil), fp.Scripts...),
+			Aspect: fp.Aspect, User: fp.isUserProvided, Mono: fp.isMonoHint(), TTF: fp.isTruetypeHint(),
+			Face: fm.faceCache[fp.Location], runes: fp.Runes,
+		}
+	}
+	return out
+}
+
+// VerifCandidates returns the built flag and copies of the candidate lists.
+func (fm *FontMap) VerifCandidates() (built bool, without, with, manual []int) {
+	cp := func(s []int) []int { return append([]int(nil), s...) }
+	return fm.built, cp(fm.candidates.withoutFallback), cp(fm.candidates.withFallback), cp(fm.candidates.manual)
+}
+
+// VerifLRUEntry is one entry of the rune cache list.
+type VerifLRUEntry struct {
+	Hash     uint64
+	Families []string
+	Script   language.Script
+	Aspect   font.Aspect
+	Rune     rune
+	Face     *font.Face
+}
+
+func (l *runeLRU) verifState() (mapLen int, entries []VerifLRUEntry) {
+	if l.m == nil {
+		return 0, nil
+	}
+	for e := l.tail.next; e != l.head && e != nil; e = e.next {
+		entries = append(entries, VerifLRUEntry{e.key.familiesHash, append([]string(nil), e.families...), e.key.s, e.key.aspect, e.key.r, e.v})
+	}
+	return len(l.m), entries
+}
+
+// VerifLRU returns len(lru.m) and the linked list from the oldest to the newest entry.
+func (fm *FontMap) VerifLRU() (mapLen int, entries []VerifLRUEntry) { return fm.lru.verifState() }
+
+// VerifScore is a familyCrible value.
+type VerifScore struct {
+	Score  int
+	Strong bool
+}
+
+// VerifCrible runs fillWithSubstitutionsList on an empty crible.
+func VerifCrible(families []string, lang LangID) map[string]VerifScore {
+	fc := make(familyCrible)
+	fc.fillWithSubstitutionsList(families, lang)
+	out := make(map[string]VerifScore, len(fc))
+	for k, v := range fc {
+		out[k] = VerifScore{v.score, v.strong}
+	}
+	return out
+}
+
+// VerifIsGenericFamily exports isGenericFamily.
+func VerifIsGenericFamily(family string) bool { return isGenericFamily(family) }
+
+// VerifCorpusFile returns a font file of the test corpus (typesetting-utils).
+func VerifCorpusFile(path string) ([]byte, error) { return td.Files.ReadFile(path) }
